@@ -202,62 +202,99 @@ func (c *Ctx) gatedContainerRules(prefix string) {
 		})
 	}
 	// --- pair/cleanup: removals
-	nRem := 0
+	// A removal is the pair {delete from the id map, Remove from the list}. The pair may be written
+	// out in the composing function or live in a helper (a "removal unit": a function that contains
+	// the pair and no composition); a call of a removal unit counts as a removal at the call site.
+	type fnInfo struct {
+		dels, rems []ssa.CallInstruction
+		comp       []ssa.CallInstruction
+	}
+	info := map[*ssa.Function]*fnInfo{}
 	for _, f := range p.FuncsIn(PkgGated) {
-		var dels, rems []ssa.CallInstruction
+		fi := &fnInfo{}
 		eachInstr(f, func(in ssa.Instruction) {
 			ci, ok := in.(ssa.CallInstruction)
 			if !ok {
 				return
 			}
 			if isDeleteOf(ci, tb, "gated") {
-				dels = append(dels, ci)
+				fi.dels = append(fi.dels, ci)
 			}
 			if sc := ci.Common().StaticCallee(); sc != nil && sc.String() == listRemove {
-				rems = append(rems, ci)
+				fi.rems = append(fi.rems, ci)
+			}
+			if calleeName(ci.Common()) == "dynamic" && tb.Of(ci.Common().Value).Is("Field", "composeFrom") {
+				fi.comp = append(fi.comp, ci)
 			}
 		})
-		if len(dels) == 0 && len(rems) == 0 {
+		info[f] = fi
+	}
+	unit := map[*ssa.Function]bool{}
+	for f, fi := range info {
+		if len(fi.dels) > 0 && len(fi.rems) > 0 && len(fi.comp) == 0 {
+			unit[f] = true
+		}
+	}
+	nRem := 0
+	for _, f := range p.FuncsIn(PkgGated) {
+		fi := info[f]
+		if len(fi.dels) == 0 && len(fi.rems) == 0 {
 			continue
 		}
 		nRem++
 		r.SawFn(p.ShortFn(f))
-		okPair := len(dels) == len(rems)
+		okPair := len(fi.dels) == len(fi.rems)
 		if okPair {
-			for i := range dels {
-				_, d1 := dels[i].(*ssa.Defer)
-				_, d2 := rems[i].(*ssa.Defer)
-				if dels[i].Block() != rems[i].Block() || d1 != d2 {
+			for i := range fi.dels {
+				_, d1 := fi.dels[i].(*ssa.Defer)
+				_, d2 := fi.rems[i].(*ssa.Defer)
+				if fi.dels[i].Block() != fi.rems[i].Block() || d1 != d2 {
 					okPair = false
 				}
 			}
 		}
-		r.Check(okPair, prefix+".pair", p.ShortFn(f)+":remove", p.Pos(f.Pos()), fmt.Sprintf("%d removal(s): map delete and list Remove always together (same block, same deferral)", len(dels)),
+		r.Check(okPair, prefix+".pair", p.ShortFn(f)+":remove", p.Pos(f.Pos()), fmt.Sprintf("%d removal(s): map delete and list Remove always together (same block, same deferral)", len(fi.dels)),
 			"removal from the id map and from the ordered list are not paired on every path: the two containers can diverge (event lost or emitted twice)")
-		// cleanup: registered (deferred) before the first fallible call = composeFrom
-		comp := callsTo(f, func(n string, cc *ssa.CallCommon) bool {
-			return n == "dynamic" && tb.Of(cc.Value).Is("Field", "composeFrom")
-		})
-		if len(comp) == 0 {
-			r.Bad(prefix+".cleanup", p.ShortFn(f), p.Pos(f.Pos()), "removals without a composition call in the same function")
+	}
+	// cleanup in every composing function: each removal (direct pair or call of a removal unit)
+	// is deferred before the composition call
+	nComp := 0
+	for _, f := range p.FuncsIn(PkgGated) {
+		fi := info[f]
+		if len(fi.comp) == 0 {
 			continue
 		}
-		for _, cc := range comp {
-			okClean := okPair
-			for i := range dels {
-				_, isD := dels[i].(*ssa.Defer)
-				if !isD || i >= len(rems) || !dominatesInstr(dels[i], cc) || !dominatesInstr(rems[i], cc) {
+		var removals []ssa.CallInstruction
+		removals = append(removals, fi.dels...)
+		removals = append(removals, fi.rems...)
+		eachInstr(f, func(in ssa.Instruction) {
+			if ci, ok := in.(ssa.CallInstruction); ok {
+				if sc := ci.Common().StaticCallee(); sc != nil && unit[sc] {
+					removals = append(removals, ci)
+				}
+			}
+		})
+		if len(removals) == 0 {
+			if f.Name() == "Process" || f.Name() == "openGate" {
+				r.Bad(prefix+".cleanup", p.ShortFn(f)+":deferred-removal", p.Pos(f.Pos()), "a composing function never removes the composed group from the gate")
+			}
+			continue
+		}
+		nComp++
+		for _, cc := range fi.comp {
+			okClean := true
+			for _, rm := range removals {
+				_, isD := rm.(*ssa.Defer)
+				if !isD || !dominatesInstr(rm, cc) {
 					okClean = false
 				}
 			}
-			r.Check(okClean, prefix+".cleanup", p.ShortFn(f)+":deferred-removal", p.InstrPos(cc), "both removals are deferred before composition, so they also run when composition or sending fails",
+			r.Check(okClean, prefix+".cleanup", p.ShortFn(f)+":deferred-removal", p.InstrPos(cc), "the removal of the composed group is deferred before composition, so it also runs when composition or sending fails",
 				"the group's removal is not deferred before the composition call: on a composition/send error the group stays gated and is emitted again later")
-			// removed ids/elements belong to the group being composed
-			_ = cc
 		}
 	}
-	if nRem < 2 {
-		r.Und(prefix+".pair", "instance-floor", "", "fewer than 2 removing functions found (Process, openGate)")
+	if nRem < 1 || nComp < 2 {
+		r.Und(prefix+".pair", "instance-floor", "", fmt.Sprintf("%d removing and %d composing-and-removing functions found (expected >=1 and 2: Process, openGate)", nRem, nComp))
 	}
 }
 
